@@ -30,7 +30,11 @@ META = {
         "job_shop: <=5 jobs x <=4 operations (thorough <=6 x <=5), machines drawn from a pool of 1-4 indices out of 0..6 "
         "(sparse, repeated inside a job), integer durations 0..9 with many zeros, rules spt/lpt/mwkr/fifo/random (also "
         "upper/mixed case, which the function lower-cases), integer seeds, local_search on/off, max_iter in {1,10,200}; "
-        "non-trivial = two jobs share >=2 distinct machines. vrptw_solve: <=7 customers (thorough <=9) with ids 1..n in list "
+        "non-trivial = two jobs share >=2 distinct machines. job_shop_history: 2-4 solve_job_shop calls on the SAME outer list "
+        "object, edited in place between calls (replace a machine, swap/move durations, swap/reverse ops - all keep op "
+        "counts and job totals -, set duration, append/pop op, replace/append/pop job), same or new rule/seed/local_search/"
+        "max_iter, every result validated against the contents at the time of the call; non-trivial = an effective edit that "
+        "keeps every job's op count and total duration precedes a call. vrptw_solve: <=7 customers (thorough <=9) with ids 1..n in list "
         "order, integer coordinates 0..8 in three geometries (spread / clustered on the depot and on earlier customers / "
         "'yard' = almost everybody at the depot's own address, giving zero-length routes and exact-zero arrivals), depot "
         "anywhere in 0..8, demands 0..5, time windows open/wide/tight/closing-before-reachable, service "
@@ -100,8 +104,14 @@ def _build_jobs(desc):
     return tuple(tuple((m, d) for m, d in job) for job in desc["jobs"])
 
 
-def check_schedule(jobs, res):
-    """Validity of a job-shop schedule written from the definition. Returns a small info dict."""
+def check_schedule(jobs, res, suffix=""):
+    """Validity of a job-shop schedule written from the definition. Returns a small info dict.
+    `suffix` is appended to the bucket (used by the history sub-check: "@after-edit")."""
+    if suffix:
+        try:
+            return check_schedule(jobs, res)
+        except Violation as v:
+            raise Violation(v.bucket + suffix, v.detail) from None
     sched = res.solution
     if not isinstance(sched, dict):
         raise Violation("jobshop:solution-not-a-dict", repr(sched)[:200])
@@ -188,6 +198,157 @@ def run_job_shop(desc, ctx):
         res0 = ctx.call(solve_job_shop, _build_jobs(desc), **kw0)
         check_schedule(jobs, res0)
         ctx.label(res0.solution != res.solution and "local-search-changed-schedule", res.objective < res0.objective and "local-search-improved")
+
+
+# ============================================================================= job shop histories
+EDIT_KINDS = [
+    "machine",  # replace one operation's machine (keeps op count and total duration)
+    "swap_durations",  # exchange the durations of two operations of one job (keeps both)
+    "swap_ops",  # exchange two operations of one job (keeps both)
+    "reverse_job",  # reverse the operation order of one job (keeps both)
+    "move_duration",  # move part of one operation's duration to another operation of the job (keeps both)
+    "set_duration",  # changes the job's total
+    "append_op",  # changes the op count
+    "pop_op",
+    "replace_job",  # assign a fresh job into the same outer list
+    "append_job",
+    "pop_job",
+]
+KEEPING = {"machine", "swap_durations", "swap_ops", "reverse_job", "move_duration"}
+
+
+@st.composite
+def jobshop_histories(draw, tier="quick"):
+    base = draw(jobshops(tier))
+    big = st.integers(0, 10**6)
+    machine = st.integers(0, 6)
+    dur = st.one_of(st.just(0), st.integers(0, 9))
+    n_calls = draw(st.sampled_from([2, 3, 2, 4]))
+    calls = []
+    for c in range(n_calls):
+        edits = []
+        if c > 0:
+            for _ in range(draw(st.sampled_from([1, 1, 2, 0, 3]))):
+                kind = draw(st.sampled_from(EDIT_KINDS[:5] * 3 + EDIT_KINDS[5:]))
+                e = {"kind": kind, "j": draw(big), "k": draw(big), "k2": draw(big)}
+                if kind in ("machine", "append_op"):
+                    e["m"] = draw(machine)
+                if kind in ("set_duration", "append_op"):
+                    e["d"] = draw(dur)
+                if kind == "move_duration":
+                    e["amount"] = draw(st.integers(1, 9))
+                if kind in ("replace_job", "append_job"):
+                    e["job"] = [[draw(machine), draw(dur)] for _ in range(draw(st.integers(1, 4)))]
+                edits.append(e)
+        same = c > 0 and draw(st.sampled_from([True, False, True]))
+        calls.append(
+            {
+                "edits": edits,
+                "same_params": same,  # reuse the previous call's rule/seed/local_search/max_iter
+                "rule": draw(st.sampled_from(RULE_SPELLINGS)),
+                "seed": draw(st.integers(0, 2**31 - 1)),
+                "local_search": draw(st.sampled_from([True, False, True])),
+                "max_iter": draw(st.sampled_from([10, 1, 50, 10, 200])),
+            }
+        )
+    return {"jobs": base["jobs"], "inner": draw(st.sampled_from(["list", "tuple", "list"])), "calls": calls}
+
+
+def _apply_edit(live, model, e, inner):
+    """Apply one edit in place to the live object handed to solvOR and to the plain-list model. Returns the effective
+    kind ("noop" when the edit cannot change anything here)."""
+    kind = e["kind"]
+    j = e["j"] % len(model)
+    job = model[j]
+    k, k2 = e["k"] % len(job), e["k2"] % len(job)
+    new = [list(op) for op in job]
+    if kind == "machine":
+        new[k][0] = e["m"]
+    elif kind == "swap_durations":
+        new[k][1], new[k2][1] = new[k2][1], new[k][1]
+    elif kind == "swap_ops":
+        new[k], new[k2] = new[k2], new[k]
+    elif kind == "reverse_job":
+        new.reverse()
+    elif kind == "move_duration":
+        amount = min(e["amount"], new[k][1])
+        if k != k2:
+            new[k][1] -= amount
+            new[k2][1] += amount
+    elif kind == "set_duration":
+        new[k][1] = e["d"]
+    elif kind == "append_op":
+        new.append([e["m"], e["d"]])
+    elif kind == "pop_op":
+        if len(new) > 1:
+            new.pop()
+    elif kind == "replace_job":
+        new = [list(op) for op in e["job"]]
+    elif kind == "append_job":
+        model.append([list(op) for op in e["job"]])
+        live.append([tuple(op) for op in e["job"]] if inner == "list" else tuple(tuple(op) for op in e["job"]))
+        return kind
+    elif kind == "pop_job":
+        if len(model) > 1:
+            model.pop()
+            live.pop()
+            return kind
+        return "noop"
+    else:
+        raise AssertionError(kind)
+    if new == [list(op) for op in job]:
+        return "noop"
+    model[j] = new
+    if inner == "list" and kind not in ("replace_job",) and len(new) == len(live[j]):
+        for i, op in enumerate(new):  # element-wise, the job's own list object stays the same
+            if tuple(op) != tuple(live[j][i]):
+                live[j][i] = tuple(op)
+    elif inner == "list":
+        if kind == "replace_job":
+            live[j] = [tuple(op) for op in new]
+        else:
+            live[j][:] = [tuple(op) for op in new]
+    else:
+        live[j] = tuple(tuple(op) for op in new)  # immutable jobs: the outer list object is still the same
+    return kind
+
+
+def run_job_shop_history(desc, ctx):
+    from solvor.job_shop import solve_job_shop
+
+    inner = desc["inner"]
+    model = [[list(op) for op in job] for job in desc["jobs"]]
+    live = [[tuple(op) for op in job] if inner == "list" else tuple(tuple(op) for op in job) for job in desc["jobs"]]
+    ctx.label("jobs-as-" + inner + "s", f"calls-{len(desc['calls'])}")
+    prev_kw = prev_res = None
+    edited = False
+    for idx, call in enumerate(desc["calls"]):
+        shape_before = [(len(job), sum(d for _, d in job)) for job in model]
+        before = [[list(op) for op in job] for job in model]
+        for e in call["edits"]:
+            kind = _apply_edit(live, model, e, inner)
+            ctx.label("edit-" + kind)
+            ctx.count("edit-" + kind)
+        changed = model != before
+        keeps = changed and [(len(job), sum(d for _, d in job)) for job in model] == shape_before
+        if changed:
+            edited = True
+            ctx.label("edit-keeps-op-counts-and-job-totals" if keeps else "edit-changes-counts-or-totals")
+            ctx.nontrivial(keeps)
+        kw = dict(rule=call["rule"], local_search=call["local_search"], max_iter=call["max_iter"], seed=call["seed"])
+        if call["same_params"] and prev_kw is not None:
+            kw = prev_kw
+            ctx.label("repeat-with-same-parameters")
+        # what the live object holds must be what the model says (a bug here is a harness error, not a finding)
+        assert [[list(op) for op in job] for job in live] == model
+        res = ctx.call(solve_job_shop, live, **kw)
+        check_schedule(model, res, "@after-edit" if edited else ("@repeat-call" if idx else ""))
+        if kw is prev_kw and not changed and (res.solution != prev_res.solution or res.objective != prev_res.objective):
+            raise Violation("jobshop:same-seed-different-schedule@repeat-call", {"call": idx, "obj": [prev_res.objective, res.objective]})
+        if [[list(op) for op in job] for job in live] != model:
+            ctx.label("solve-modified-its-input(label-only)")
+        prev_kw, prev_res = kw, res
+    ctx.size("jobs", len(model))
 
 
 # ============================================================================= VRP: generated problems
@@ -815,6 +976,7 @@ def vrp_machine(ctx, tier):
 
 SUBS = [
     Sub("job_shop", run_job_shop, strategy=lambda tier: jobshops(tier), quick=1000, thorough=2500, workers_quick=4, wall_thorough=420.0),
+    Sub("job_shop_history", run_job_shop_history, strategy=lambda tier: jobshop_histories(tier), quick=500, thorough=2500, workers_quick=4, wall_thorough=420.0),
     Sub("vrptw_solve", run_vrptw_solve, strategy=lambda tier: solve_cases(tier), quick=250, thorough=500, workers_quick=4, wall_quick=80.0, wall_thorough=420.0),
     Sub("vrptw_boundary", run_vrptw_boundary, strategy=lambda tier: boundary_cases(tier), quick=130, thorough=500, workers_quick=4, wall_quick=80.0, wall_thorough=420.0),
     Sub("vrp_operators", run_vrp_history, machine=vrp_machine, quick=500, thorough=1200, wall_thorough=420.0, steps_quick=30, steps_thorough=30, workers_quick=4, wall_quick=80.0),
